@@ -677,4 +677,108 @@ def r4_11(ctx):
         ctx.ok(f.where, "no set of tag names shadows the open-tag stack", f.fq)
 
 
-RULES = [r4_1, r4_2, r4_3, r4_4, r4_5, r4_6, r4_7, r4_8, r4_9, r4_10, r4_11]
+def r4_13(ctx):
+    ctx.rule("R4.13", "text that is not an emoji code stays verbatim: render() passes plain text through _emoji_replace; for a `:name:` that is not in the emoji table the replacement callback must hand back exactly what the regex matched - the fall-back of the table look-up is the whole match (group 0, or a group that spans the whole pattern), not a string rebuilt from a case-folded name (`at 10:AM: sharp` would come back as `at 10:am: sharp`). Known finding: escape() does not neutralise emoji codes at all, so render(escape(':a:')) is an emoji")
+    import re as _re
+    m = ctx.repo.mod("_emoji_replace")
+    f = m.functions.get("_emoji_replace")
+    if f is None:
+        raise AnchorVanished("_emoji_replace:_emoji_replace not found")
+    # the regex and its callback
+    pats = [c for c in ast.walk(f.node) if isinstance(c, ast.Call) and norm(c.func) in ("re.compile", "compile") and c.args and isinstance(c.args[0], ast.Constant) and isinstance(c.args[0].value, str)]
+    for g_ in m.tree.body:
+        if isinstance(g_, ast.Assign) and isinstance(g_.value, ast.Call) and norm(g_.value.func) in ("re.compile", "compile") and g_.value.args and isinstance(g_.value.args[0], ast.Constant):
+            pats.append(g_.value)
+    if len(pats) != 1:
+        raise AnalysisError(f"_emoji_replace: expected exactly one emoji regex, found {len(pats)}")
+    pattern = pats[0].args[0].value
+    import re._parser as _sp  # regex AST only, nothing is matched
+    parsed = _sp.parse(pattern)
+    whole_groups = {0}
+    if len(parsed) == 1 and parsed[0][0] == _sp.SUBPATTERN and parsed[0][1][0]:
+        whole_groups.add(parsed[0][1][0])  # one capture group around the whole pattern
+    cbs = [x for x in ast.walk(f.node) if isinstance(x, ast.FunctionDef) and x is not f.node and len(x.args.args) == 1]
+    lambdas = [x for x in ast.walk(f.node) if isinstance(x, ast.Lambda) and len(x.args.args) == 1]
+    if len(cbs) + len(lambdas) != 1:
+        raise AnalysisError("_emoji_replace: the replacement callback (one function of the match object) was not found")
+    cb = (cbs + lambdas)[0]
+    mp = cb.args.args[0].arg
+    # names bound to groups
+    group_of = {}
+    body = cb.body if isinstance(cb.body, list) else []
+    for x in [y for st in body for y in ast.walk(st)]:
+        if isinstance(x, ast.Assign) and len(x.targets) == 1:
+            t, v = x.targets[0], x.value
+            if isinstance(t, ast.Tuple) and isinstance(v, ast.Call) and norm(v.func) == f"{mp}.groups":
+                for i, e in enumerate(t.elts):
+                    if isinstance(e, ast.Name):
+                        group_of[e.id] = i + 1
+            elif isinstance(t, ast.Name):
+                gi = _group_index(v, mp)
+                if gi is not None:
+                    group_of[t.id] = gi
+    # the table look-up(s) with a fall-back
+    aliases = alias_map(f.node)
+    aliases.update(alias_map(cb) if isinstance(cb, ast.FunctionDef) else {})
+    looks = []
+    for x in ast.walk(cb):
+        if isinstance(x, ast.Call):
+            fn_ = expand_alias(x.func, aliases) if isinstance(x.func, ast.Name) else x.func
+            if isinstance(fn_, ast.Attribute) and fn_.attr == "get" and norm(fn_.value).endswith("EMOJI") and len(x.args) == 2:
+                looks.append(x)
+    if not looks:
+        raise AnalysisError("_emoji_replace: no EMOJI.get(name, fall-back) look-up in the callback; the verbatim clause is written differently and not decided")
+    FOLD = {"lower", "upper", "casefold", "title", "swapcase", "capitalize", "strip", "lstrip", "rstrip", "replace"}
+    for lk in looks:
+        d = lk.args[1]
+        where = f"{m.relpath}:{lk.lineno}"
+        gi = group_of.get(d.id) if isinstance(d, ast.Name) else _group_index(d, mp)
+        if gi is not None:
+            ctx.check(gi in whole_groups, f.fq, short(lk), where, f"the fall-back is group {gi}, the whole match", f"the fall-back of `{short(lk)}` is group {gi} of `{pattern}`, which is not the whole match: text around an unknown `:name:` is dropped or duplicated")
+            continue
+        # a rebuilt string: which names does it use, and were they folded?
+        used = {y.id for y in ast.walk(d) if isinstance(y, ast.Name)}
+        folded = any(isinstance(y, ast.Call) and isinstance(y.func, ast.Attribute) and y.func.attr in FOLD for y in ast.walk(d))
+        for nm in used:
+            for st in [y for st_ in body for y in ast.walk(st_)]:
+                if isinstance(st, ast.Assign) and any(isinstance(t_, ast.Name) and t_.id == nm for t_ in st.targets) and any(isinstance(y, ast.Call) and isinstance(y.func, ast.Attribute) and y.func.attr in FOLD for y in ast.walk(st.value)):
+                    folded = True
+        if folded:
+            ctx.violation(f.fq, short(lk), where, f"the fall-back of `{short(lk)}` is rebuilt from a case-folded / stripped name (`{norm(d)}`): a `:Name:` that is not an emoji is not handed back as it was written")
+        else:
+            raise AnalysisError(f"_emoji_replace: the fall-back `{norm(d)}` is neither a match group nor a visibly folded string; not decided")
+    # escape() and emoji codes: render() replaces emoji in text by default, escape() only protects tags
+    r = ctx.repo.fn("markup:render")
+    e = ctx.repo.fn("markup:escape")
+    ep = [a.arg for a in r.node.args.args]
+    defaults = default_args(r.node)
+    emoji_default = defaults.get("emoji")
+    applies = any(isinstance(c, ast.Call) and norm(expand_alias(c.func, alias_map(r.node)) if isinstance(c.func, ast.Name) else c.func).endswith("_emoji_replace") for c in walk_local(r.node))
+    docs = {id(x.body[0].value) for x in ast.walk(e.node) if isinstance(x, (ast.FunctionDef, ast.AsyncFunctionDef)) and x.body and isinstance(x.body[0], ast.Expr) and isinstance(x.body[0].value, ast.Constant)}
+    esc_touches_colon = any(isinstance(c, ast.Constant) and isinstance(c.value, str) and ":" in c.value and id(c) not in docs for c in ast.walk(e.node))
+    if "emoji" in ep and applies:
+        on_by_default = isinstance(emoji_default, ast.Constant) and emoji_default.value is True
+        ctx.check(not on_by_default or esc_touches_colon, r.fq, "render(escape(s)) with emoji codes", r.where,
+                  "emoji replacement is off by default or escape() handles `:`",
+                  "render() replaces `:name:` emoji codes in text by default (emoji=True) and escape() leaves them alone: render(escape(':a:')) is an emoji character, not ':a:' - escaped text with a colon-delimited emoji name does not come back verbatim")
+
+
+def _group_index(v, mp):
+    """k for match.group(k) / match[k] / match.group() on the match parameter mp, else None"""
+    if isinstance(v, ast.Call) and norm(v.func) == f"{mp}.group" and not v.keywords:
+        if not v.args:
+            return 0
+        if len(v.args) == 1 and isinstance(v.args[0], ast.Constant) and type(v.args[0].value) is int:
+            return v.args[0].value
+    if isinstance(v, ast.Subscript) and norm(v.value) == mp and isinstance(v.slice, ast.Constant) and type(v.slice.value) is int:
+        return v.slice.value
+    return None
+
+
+def r4_12(ctx):
+    from .common import memo_rule
+    memo_rule(ctx, "R4.12", ["markup", "_emoji_replace"], 0)
+    ctx.rules_applied["R4.12"] += " [a tag styles its region with ITS parameters: a cache of normalised tags or of replacements in the markup renderer must be keyed by everything the cached value is built from - the tag's name AND its parameters - or the second [link=B] of a document gets the first one's URL]"
+
+
+RULES = [r4_1, r4_2, r4_3, r4_4, r4_5, r4_6, r4_7, r4_8, r4_9, r4_10, r4_11, r4_12, r4_13]
